@@ -11,7 +11,7 @@ import io
 import z3
 
 from ..errors import PyRaise, Unsupported
-from ..values import SBytes, SInt
+from ..values import BCat, PyBytes, SBytes, SInt
 from . import note
 from .mp import MPBytes, MPTrunc
 
@@ -21,6 +21,11 @@ def length_of(v):
         return len(v)
     if type(v).__name__ in ("JSText", "AvroHeader", "AvroBlock", "CsvRow", "MagicSeg"):
         return v.length
+    if isinstance(v, BCat):
+        total = 0
+        for part in v.parts:
+            total = total + length_of(part)
+        return total
     if isinstance(v, (SBytes, MPBytes, MPTrunc)):
         if v.length is None:
             if isinstance(v, SBytes):  # abstract bytes of unknown size (e.g. encoded text): some non-negative length
@@ -97,7 +102,11 @@ class AbsFile(io.IOBase):
         if isinstance(b, (bytes, bytearray)) and "b" not in self.mode:
             raise PyRaise(TypeError("write() argument must be str, not bytes"))
         n = length_of(b)
-        self.segs.append((b, n))
+        if isinstance(b, BCat):
+            for part in b.parts:  # one write call, the parts lie one after the other in the file
+                self.segs.append((part, length_of(part)))
+        else:
+            self.segs.append((b, n))
         return SInt(n) if not isinstance(n, int) else n
 
     def read(self, n=-1):
@@ -172,6 +181,13 @@ class AbsFile(io.IOBase):
             return m_ + b"\x00" * max(0, (n if isinstance(n, int) else 0) - len(m_))
         save_i, save_segs = self.i, list(self.segs)
         try:
+            if self.i > 0 and isinstance(n, int) and n > 1 and self.i < len(self.segs):
+                # BufferedReader / GzipFile.peek(n) return what is left in the buffer, at least one byte unless the file has ended, and that can be
+                # fewer than n bytes anywhere behind the start of the file (the position relative to the buffer boundary is not known): both outcomes
+                AbsFile._npeek = getattr(AbsFile, "_npeek", 0) + 1
+                note("peek", "peek(n) behind the start of a file may return fewer than n bytes (but at least one while data is left); at the start of the file it returns min(n, size) bytes")
+                if self.it.branch(z3.Bool(f"peek_short!{AbsFile._npeek}")):
+                    return SBytes(z3.Const(f"peeked!{AbsFile._npeek}", PyBytes), length=1)  # one byte of whatever comes next
             return self.read(n)
         finally:
             self.i, self.segs = save_i, save_segs
